@@ -133,6 +133,9 @@ def decision_list(body):
                 continue
             if isinstance(st, (ast.Return, ast.Raise)):
                 out.append((guards + neg, outcome_of([st]))); return
+            if isinstance(st, ast.Expr) and isinstance(st.value, ast.Constant): continue
+            # anything else (a loop, a try, ...) can decide the outcome in ways this extraction does not follow: undecided, not a violation
+            raise Unsupported(f'{type(st).__name__} statement at line {st.lineno} in the dispatch block')
     walk(body, [])
     return out, alias
 
